@@ -58,7 +58,8 @@ Call(a, g) ==
     [] OTHER           -> FALSE
 
 Step(ev) ==
-  IF ev.a = "init" THEN Reset
+  IF "obs" \notin DOMAIN ev THEN FALSE      \* the call crashed or hung: no observation
+  ELSE IF ev.a = "init" THEN Reset
   ELSE IF ev.obs.skip = 1
   THEN /\ ~Guard(ev.a, ev.arg)
        /\ UNCHANGED <<live, hp, name, val, fo>>
@@ -66,6 +67,7 @@ Step(ev) ==
   ELSE Call(ev.a, ev.arg)
 
 Matches(ev) ==
+  /\ "obs" \in DOMAIN ev
   /\ obs'.exp.ret = ev.obs.ret
   /\ obs'.t1 = ev.obs.ret
   /\ obs'.exp.freed = ev.obs.freed
